@@ -228,6 +228,41 @@ def manager_overlap_probe(scenario):
                 if self.fail:
                     raise OSError("shutdown failed")
                 self.closed += 1
+        if scenario == "create-fails-then-app":
+            # the engine cannot be created (no multicast-capable interface: AsyncZeroconf() raises OSError); the application then
+            # supplies its own engine; the manager is closed: the application's engine is still not the library's to close
+            boom = {"n": 1}
+
+            class FailingZc(SlowZc):
+                def __init__(self, zc=None, origin="Lib"):
+                    if zc is None and origin == "Lib" and boom["n"]:
+                        boom["n"] -= 1
+                        raise OSError(19, "No such device")
+                    super().__init__(zc, origin)
+            with patch("aioesphomeapi.zeroconf.AsyncZeroconf", FailingZc):
+                app = FailingZc(origin="App")
+                app.gate.set_result(None)
+                mgr = ZeroconfManager()
+                notes = []
+                try:
+                    mgr.get_async_zeroconf()
+                    notes.append("created")
+                except OSError:
+                    notes.append("creation raised")
+                try:
+                    mgr.set_instance(app)
+                    notes.append("app accepted")
+                except RuntimeError:
+                    notes.append("app refused")
+                for z in made:
+                    if not z.gate.done():
+                        z.gate.set_result(None)
+                for _ in range(2):
+                    try:
+                        await mgr.async_close()
+                    except Exception as e:  # noqa: BLE001
+                        notes.append("final close raised " + type(e).__name__)
+            return notes, [(z.origin, z.closed) for z in made]
         with patch("aioesphomeapi.zeroconf.AsyncZeroconf", SlowZc):
             app = SlowZc(origin="App")
             app.gate.set_result(None)
@@ -276,6 +311,83 @@ def manager_overlap_probe(scenario):
                 except Exception as e:  # noqa: BLE001
                     notes.append("final close raised " + type(e).__name__)
         return notes, [(z.origin, z.closed) for z in made]
+    loop = asyncio.new_event_loop()
+    try:
+        return loop.run_until_complete(go())
+    finally:
+        loop.close()
+
+
+def overlapping_resolves_probe(order):
+    """Two lookups of .local names alive at once, neither given a manager; the mDNS answers arrive in `order` ('ab': the first
+    lookup's answer first, 'ba': the second's first). Each engine the library created is closed exactly once and not while a
+    query that uses it is still unanswered, and both names resolve through mDNS. Returns (results, engine report, problems)."""
+    async def go():
+        from aioesphomeapi import host_resolver as hr
+        loop = asyncio.get_running_loop()
+        engines, problems = [], []
+        gates = {"a": loop.create_future(), "b": loop.create_future()}
+        table = {"a": [11], "b": [12]}
+        outstanding = {}
+
+        class Zc:
+            def __init__(self, zc=None, origin="Lib"):
+                self.zeroconf = zc or FakeZeroconf()
+                self.closed = 0
+                engines.append(self)
+
+            async def async_close(self):
+                self.closed += 1
+                busy = [n for n, z in outstanding.items() if z is self.zeroconf]
+                if busy:
+                    problems.append(f"an engine the library created was closed while the query for {busy} that uses it was still unanswered")
+
+        class Info:
+            def __init__(self, type_, name, server=None):
+                self.short = name.split(".")[0]
+
+            async def async_request(self, zc, timeout):
+                outstanding[self.short] = zc
+                try:
+                    await gates[self.short]
+                finally:
+                    outstanding.pop(self.short, None)
+                for e in engines:
+                    if e.zeroconf is zc and e.closed:
+                        return False           # a closed engine never hears the answer
+                return True
+
+            def ip_addresses_by_version(self, version):
+                from zeroconf import IPVersion
+                return [] if version == IPVersion.V6Only else [ipaddress.ip_address(v4(n)) for n in table[self.short]]
+
+        async def no_getaddrinfo(*a, **k):
+            raise OSError("getaddrinfo failure")
+
+        async def one(name):
+            try:
+                res = await hr.async_resolve_host([name + ".local"], 6053)
+                return sorted(ai.sockaddr.address for ai in res)
+            except Exception as e:  # noqa: BLE001
+                return type(e).__name__
+        with patch.object(hr, "AsyncServiceInfo", Info), patch("aioesphomeapi.zeroconf.AsyncZeroconf", Zc), patch.object(loop, "getaddrinfo", no_getaddrinfo):
+            ta = asyncio.ensure_future(one("a"))
+            await asyncio.sleep(0)
+            tb = asyncio.ensure_future(one("b"))
+            for _ in range(5):
+                await asyncio.sleep(0)
+            for k in order:
+                gates[k].set_result(None)
+                for _ in range(8):
+                    await asyncio.sleep(0)
+            ra, rb = await ta, await tb
+        for name, r, n in (("a.local", ra, 11), ("b.local", rb, 12)):
+            if r != [v4(n)]:
+                problems.append(f"{name} (mDNS answers {v4(n)}) resolved to {r}")
+        report = [e.closed for e in engines]
+        if any(c != 1 for c in report):
+            problems.append(f"engines created by the library were closed {report} time(s) (each exactly once)")
+        return (ra, rb), report, problems
     loop = asyncio.new_event_loop()
     try:
         return loop.run_until_complete(go())
@@ -412,7 +524,7 @@ def run(rep, tier, seed):
     if disagreements and not rep.violations:
         rep.violations.append(("C20/correspondence", "Model/Resolver.v and the implementation disagree; no violation of C20 found",
                                {"kind": "no-failing-input-found", "obligation": "correspondence Resolver.resolve / zrun ~ host_resolver.py, zeroconf.py", "first_disagreements": disagreements[:4]}))
-    for scenario in ("get-during-close", "failed-close-then-app", "cancelled-close-then-app"):
+    for scenario in ("get-during-close", "failed-close-then-app", "cancelled-close-then-app", "create-fails-then-app"):
         notes, engines = manager_overlap_probe(scenario)
         rep.case(("manager-overlap", scenario), True, sample={"manager_overlap": scenario, "notes": notes, "engines": engines})
         rep.bump("probe:manager-overlap")
@@ -424,6 +536,13 @@ def run(rep, tier, seed):
         elif lib_bad:
             rep.violation("C20/library-instance-not-closed", f"manager operations overlapping a close ({scenario}: {notes}): engines created by the library and how often each was closed: "
                           f"{[e for e in engines if e[0] == 'Lib']} (each exactly once)", {"kind": "manager-overlap", "scenario": scenario})
+    for order in ("ab", "ba"):
+        results, report, problems = overlapping_resolves_probe(order)
+        rep.case(("overlapping-resolves", order), True, sample={"overlapping_resolves": order, "results": results, "engines_closed": report})
+        rep.bump("probe:overlapping-resolves")
+        if problems:
+            rep.violation("C20/library-instance-not-closed" if "closed" in problems[0] else "C20/mdns-first", f"two lookups without a manager alive at once (answers in order {order}): {problems[0]}; "
+                          f"{len(problems)} problem(s)", {"kind": "overlapping-resolves", "order": order})
     for host in ("dev.local", "dev", "printer.example.com"):
         for second in (("none", "empty"), ("err", "empty"), ("none", "err"), ("err", "err")):
             outs = second_session_probe(host, second)
@@ -441,6 +560,11 @@ def run(rep, tier, seed):
 
 def replay(path):
     d0 = json.loads(open(path).read()).get("replay", {})
+    if d0.get("kind") == "overlapping-resolves":
+        common.setup_impl_path()
+        r = overlapping_resolves_probe(d0["order"])
+        print(r)
+        return 1 if r[2] else 0
     if d0.get("kind") == "manager-overlap":
         common.setup_impl_path()
         print(manager_overlap_probe(d0["scenario"]))
